@@ -330,6 +330,38 @@ Definition thread_cfg (w : world) : option orcfg :=
   end.
 Definition session_cfg (w : world) : option orcfg := from_env (w_env w).
 
+(* ---- process output at start-up (provider_openresponses.rs from_env, called once by `serve` / `rip serve`) -------- *)
+(* parse_tool_choice_env, the non-JSON forms: the error text of a value that is not auto | none | required | function:<name> *)
+Fixpoint drop_prefix (p s : str) : option str :=
+  match p, s with
+  | [], _ => Some s
+  | x :: p', y :: s' => if x =? y then drop_prefix p' s' else None
+  | _ :: _, [] => None
+  end.
+Definition tool_choice_error (raw : str) : option str :=
+  match trim raw with
+  | [] => None
+  | t =>
+      if str_eqb t (lit "auto") || str_eqb t (lit "none") || str_eqb t (lit "required") then None
+      else match drop_prefix (lit "function:") t with
+           | Some rest => if blank rest then Some (lit "function name missing (expected function:<name>)") else None
+           | None => Some (lit "unsupported value (expected auto|none|required|function:<name>|json:<tool_choice_json>)")
+           end
+  end.
+(* `{value:?}` of a string without characters that need escaping *)
+Definition quote_debug (v : str) : str := 34 :: v ++ [34].
+(* what the authority prints on stderr (-> <data>/authority/authority.log when `rip` spawned it) besides its address:
+   a function of PUBLIC variables only *)
+Definition startup_warnings (e : env) : list str :=
+  match getenv e E_ENDPOINT, getenv e E_TOOL_CHOICE with
+  | Some _, Some v =>
+      match tool_choice_error v with
+      | Some m => [lit "invalid RIP_OPENRESPONSES_TOOL_CHOICE=" ++ quote_debug v ++ lit ": " ++ m ++ lit "; defaulting to auto"]
+      | None => []
+      end
+  | _, _ => []
+  end.
+
 Definition dump_enabled (e : env) : bool :=
   match getenv e E_DUMP with Some v => truthy v | None => false end.
 
@@ -814,7 +846,8 @@ Fixpoint enc_milestones (fs : list frame) : list N :=
   end.
 
 Definition enc_report (w : world) : list N :=
-  nlen (source_errors w) :: flat_map enc_str (source_errors w) ++ enc_doctor (doctor w).
+  nlen (startup_warnings (w_env w)) :: flat_map enc_str (startup_warnings (w_env w))
+  ++ nlen (source_errors w) :: flat_map enc_str (source_errors w) ++ enc_doctor (doctor w).
 
 (* outcome 99: only the diagnostic surface was exercised (GET /config/doctor, `rip config doctor`) *)
 Definition model_obs (c : case) : list N :=
